@@ -281,6 +281,9 @@ func (g *goGen) literal(n *inNode) (string, bool) {
 	case "string":
 		ln := int(n.vln.Int64())
 		if ln > 1<<16 || ln < 0 {
+			if os.Getenv("HVC_DEBUG") != "" {
+				fmt.Printf("hvc: replay literal: string of length %v\n", n.vln)
+			}
 			return "", false
 		}
 		var bs []string
@@ -299,6 +302,9 @@ func (g *goGen) literal(n *inNode) (string, bool) {
 		ln := n.vln.Int64()
 		cp := n.vcp.Int64()
 		if ln > 1<<20 || ln < 0 {
+			if os.Getenv("HVC_DEBUG") != "" {
+				fmt.Printf("hvc: replay literal: slice %v of length %v\n", n.T, n.vln)
+			}
 			return "", false
 		}
 		if cp > ln+64 {
@@ -346,7 +352,11 @@ func (g *goGen) literal(n *inNode) (string, bool) {
 		}
 		return fmt.Sprintf("func() %s { v := %s; return &v }()", ts, l), true
 	}
-	return "", false
+	if os.Getenv("HVC_DEBUG") != "" {
+		fmt.Printf("hvc: replay literal: unsupported node kind %q of type %v\n", n.kind, n.T)
+	}
+	// values the replay cannot construct (interfaces, maps, functions, arrays) are left at their zero value
+	return fmt.Sprintf("*new(%s)", ts), true
 }
 
 type ReplayResult struct {
@@ -412,7 +422,15 @@ func (v *Verifier) replayObligation(o *Obligation, fx *FnCtx, fn *ssa.Function, 
 				if n == nil {
 					return
 				}
+				if n.kind == "int" && fx.tc.Mode == ModeInt && n.term != nil && !n.term.IsNum() {
+					extra = append(extra, fx.tc.inRange(n.term, n.T))
+				}
 				if n.kind == "slice" || n.kind == "string" {
+					// well-formedness of values the program never loaded (no facts were generated for them)
+					extra = append(extra, fx.tc.IdxLe(fx.tc.IdxNum(0), n.ln), fx.tc.IdxLe(fx.tc.IdxNum(0), n.id))
+					if n.cp != nil {
+						extra = append(extra, fx.tc.IdxLe(n.ln, n.cp))
+					}
 					extra = append(extra, fx.tc.IdxLe(n.ln, fx.tc.IdxNum(bound)))
 					if n.cp != nil {
 						extra = append(extra, fx.tc.IdxLe(n.cp, fx.tc.IdxNum(bound+8)))
@@ -655,6 +673,37 @@ func fmtArgs(a, r []string) string {
 	return s
 }
 
+// stubOtherTests maps the package's own _test.go files to empty files in the overlay, so that
+// the injected test builds quickly and independently of them.
+func stubOtherTests(pdir, tmp string, repl map[string]string) {
+	ents, err := os.ReadDir(pdir)
+	if err != nil {
+		return
+	}
+	for _, e := range ents {
+		if !strings.HasSuffix(e.Name(), "_test.go") {
+			continue
+		}
+		data, err := os.ReadFile(filepath.Join(pdir, e.Name()))
+		if err != nil {
+			continue
+		}
+		pk := ""
+		for _, ln := range strings.Split(string(data), "\n") {
+			if strings.HasPrefix(ln, "package ") {
+				pk = strings.Fields(strings.TrimPrefix(ln, "package "))[0]
+				break
+			}
+		}
+		if pk == "" {
+			continue
+		}
+		stub := filepath.Join(tmp, "stub_"+e.Name())
+		_ = os.WriteFile(stub, []byte("package "+pk+"\n"), 0o644)
+		repl[filepath.Join(pdir, e.Name())] = stub
+	}
+}
+
 // runReplayFile injects the replay test into its package with -overlay and runs it.
 func (v *Verifier) runReplayFile(file string, fn *ssa.Function) ReplayResult {
 	res := ReplayResult{File: file}
@@ -681,7 +730,9 @@ func (v *Verifier) runReplayFile(file string, fn *ssa.Function) ReplayResult {
 		return res
 	}
 	defer os.RemoveAll(tmp)
-	ov := map[string]map[string]string{"Replace": {filepath.Join(dir, "zz_hvc_replay_test.go"): file}}
+	repl := map[string]string{filepath.Join(dir, "zz_hvc_replay_test.go"): file}
+	stubOtherTests(dir, tmp, repl)
+	ov := map[string]map[string]string{"Replace": repl}
 	ovData, _ := json.Marshal(ov)
 	ovFile := filepath.Join(tmp, "ov.json")
 	_ = os.WriteFile(ovFile, ovData, 0o644)
